@@ -23,7 +23,14 @@ for d in sorted(glob.glob("/verif/seeded/*")):
             status = ("quiet (%s)" % ",".join(ran)) if ran else "not run yet"
         rows.append("| %s | (harmless rewrite) %s | %s | %s |" % (name, (m.get("what_changed") or "")[:150].replace("|", "/").replace("\n", " "), "-", status))
         continue
-    status = ("caught by " + ",".join(sorted(set(caught))) + (" (no-failing-input-found)" if nofound else "")) if caught else ("MISSED (ran %s)" % ",".join(ran) if ran else "not run yet")
+    cross = open(d + "/cross.txt").read() if os.path.exists(d + "/cross.txt") else ""
+    xc = sorted({l.split()[1].split("=")[1] for l in cross.splitlines() if l.startswith("VIOLATION")})
+    if not caught and xc:
+        status = "caught by %s (the property this glue change breaks; own check %s quiet: its observable, the anchored function, is unchanged)" % (",".join(xc), ",".join(ran))
+        rows.append("| %s | %s | %s | %s |" % (name, (m.get("clause_broken") or "")[:110].replace("|", "/").replace("\n", " "),
+                                             (m.get("what_it_needs_to_manifest") or "")[:150].replace("|", "/").replace("\n", " "), status))
+        continue
+    status = ("caught by " + ",".join(sorted(set(caught + xc))) + (" (no-failing-input-found)" if nofound else "")) if caught else ("MISSED (ran %s)" % ",".join(ran) if ran else "not run yet")
     rows.append("| %s | %s | %s | %s |" % (name, (m.get("clause_broken") or "")[:110].replace("|", "/").replace("\n", " "),
                                          (m.get("what_it_needs_to_manifest") or "")[:150].replace("|", "/").replace("\n", " "), status))
 print("| seed | clause broken | needs | outcome |\n|---|---|---|---|")
